@@ -257,6 +257,18 @@ func runAliasList(c *Case) []string {
 	rep := a.ints()
 	exp := a.int()
 	when := a.int()
+	// both lists are windows of one caller-owned buffer: fixed has spare capacity that runs over a gap into rep
+	const guard = 7777
+	buf := make([]int, 0, len(fixed)+len(rep)+4)
+	buf = append(buf, fixed...)
+	buf = append(buf, guard, guard)
+	buf = append(buf, rep...)
+	buf = append(buf, guard, guard)
+	before := append([]int(nil), buf...)
+	fixed = buf[:len(fixed)]
+	if len(rep) > 0 {
+		rep = buf[len(fixed)+2 : len(fixed)+2+len(rep)]
+	}
 	var n v3.Number
 	var err error
 	if ctor == "F" {
@@ -268,6 +280,11 @@ func runAliasList(c *Case) []string {
 	}
 	if err != nil {
 		return []string{"ERR"}
+	}
+	for i := range buf {
+		if buf[i] != before[i] {
+			return []string{"MODIFIED"} // the constructor wrote to the caller's buffer
+		}
 	}
 	switch when {
 	case 1:
